@@ -30,7 +30,7 @@ fn run(s: &mut Session, c: &str) -> (String, Stop, Vec<Ev>) {
     let mark = s.mark();
     s.enter(c);
     let mut used = 0;
-    let stop = drain_with_replies(s, &[], &mut used, 60_000);
+    let stop = drain_with_replies(s, &[], &mut used, 4_000);
     (transcript(s.events_since(mark), Norm::STD), stop, s.events_since(mark).to_vec())
 }
 
